@@ -155,6 +155,9 @@ Truncate(t) ==
      /\ UNCHANGED <<blk, n, flag, txb>>
      /\ Log([op |-> "truncate", t |-> t, res |-> "ok"])
 
+(* the ledger is closed and opened again on the same data: everything it answers afterwards comes from what is stored *)
+Restart == Unchanged /\ Log([op |-> "restart", res |-> "ok"])
+
 Next ==
   /\ Len(hist) < MaxOps
   /\ \/ \E p \in alive, txs \in TxSeqs : Confirm(p, txs)
@@ -163,6 +166,7 @@ Next ==
      \/ \E p \in alive : ConfirmTwoCoinbase(p)
      \/ \E b \in 1..n : ConfirmOnRemoved(b)
      \/ \E t \in alive : Truncate(t)
+     \/ Restart
 
 Spec == Init /\ [][Next]_vars
 
